@@ -123,3 +123,19 @@ func VerifC19_q_ipamPairs() {
 	b := w.prepRaceOp(j)
 	verifRace([]interface{}{w.ipam}, a, b)
 }
+
+// BOUND: topology T1, the first IP allocated; a metric scrape (Collect) or a query (ByPrefix, ByKeyword) runs as one logical thread while one of {AllocateSpecificIP, AllocateInSubnet, Release, ReleaseIPs, ConfigurePool, a reservation watch event} runs as the other: an unsynchronised map access between them makes the Go runtime abort the process ("concurrent map iteration and map write"), which no request may cause (C18); same lock-set analysis and race-detector confirmation as VerifC19_q_ipamPairs
+func VerifC18_q_scrapeVsMutators() {
+	w := vNewWorld(0)
+	if err := w.configure(); err != nil {
+		panic(err)
+	}
+	if err := w.ipam.AllocateSpecificIP(vKeys[0], net.ParseIP(w.ips[0]), Attr{NodeName: "n1", Uid: "u1"}); err != nil {
+		panic(err)
+	}
+	reader := []int{15, 11, 12}[nondetChoice(3)]
+	writer := []int{0, 1, 5, 6, 8, 16}[nondetChoice(6)]
+	a := w.prepRaceOp(reader)
+	b := w.prepRaceOp(writer)
+	verifRace([]interface{}{w.ipam}, a, b)
+}
